@@ -276,7 +276,7 @@ pub fn run(ctx: &Ctx) -> Report {
     for (class, which) in [(0u8, 0u8), (3, 0), (0, 1), (2, 1)] {
         let m = BuilderModel { class, which };
         let depth = if which == 0 { depth } else { depth.min(ctx.tier.pick(6, 7)) };
-        let res = explore(&m, &Limits { max_depth: depth, max_states: 5_000_000, budget_s: ctx.budget_s() }, ctx.start);
+        let res = explore(&m, &Limits { max_depth: depth, max_states: ctx.tier.pick(5_000_000, 60_000_000), budget_s: ctx.budget_s() }, ctx.start);
         states += res.states;
         transitions += res.transitions;
         levels.push(json!({"class": class, "alphabet": which, "depth_completed": res.depth_completed, "per_level": res.per_level}));
@@ -316,6 +316,25 @@ pub fn run(ctx: &Ctx) -> Report {
             .reduce(Acc::default, |a, b| a.merge(b))
     };
     acc = acc.merge(sweep);
+    // fixed programs with what the alphabets leave out: an attribute that re-enters the library, one that
+    // leaves its padding to the zeroed destination (after an unrelated message was sealed on the thread),
+    // a panic caught on this very thread inside each serialising call; then every sealing step
+    {
+        let mut progs: Vec<Vec<Op>> = Vec::new();
+        let seals = [vec![Op::Fp], vec![Op::Sha1(0), Op::Fp], vec![Op::Sha256(1), Op::Fp], vec![Op::Sha1(0), Op::Sha256(1), Op::Fp, Op::Fp, Op::Raw(0xFF00, vec![1])]];
+        for s in &seals {
+            for pre in [vec![Op::Nested(0)], vec![Op::Nested(1), Op::Raw(0xFF00, vec![0x42])], vec![Op::Elsewhere(0), Op::CustomLazy(1)], vec![Op::Elsewhere(1), Op::CustomLazy(6), Op::CustomLazy(3)], vec![Op::Poison(8)], vec![Op::Poison(9)], vec![Op::Poison(10), Op::Typed(Kind::Software, b"sw".to_vec())], vec![Op::Poison(11)], vec![Op::Poison(12)]] {
+                let mut ops = pre.clone();
+                ops.extend(s.clone());
+                progs.push(ops);
+            }
+        }
+        for ops in progs {
+            let case = Prog { class: 0, method: 1, tid: TID, ops }.to_case("builder_seq");
+            crate::props::judge_guarded(judge, &case, &mut acc);
+            acc.nontrivial += 1;
+        }
+    }
     // the evaluation counters of run_prog re-judge prefixes; transitions is the number of new (state, op) pairs
     Report {
         acc,
